@@ -156,6 +156,7 @@ ENUMERATORS = ['__contains__', '__iter__', 'keys', 'item', 'length', 'getPropert
 
 def r10c(chk, rid='R10.c'):
     chk.rule(rid, 'one view of a declaration block, decided by evaluation: membership, iteration, keys, item, length, getProperty and getProperties (with the helpers they call, resolved in the class) are evaluated on their syntax trees over model blocks with repeated names, literal spellings, comments and !important entries before and after plain ones, and compared with the prescribed view')
+    chk.assume('R10.c: the read side looks at properties only through name, literalname and priority; five model blocks cover repeated names, literal spellings, comments and !important before/after plain entries')
     from sa.absint import Evaluator, Raised, Record
 
     m = chk.repo.mod(DECL)
@@ -394,6 +395,7 @@ def r10f(chk, rid='R10.f'):
 
 def r10g(chk, rid='R10.g'):
     chk.rule(rid, 'variables block, decided by evaluation: CSSVariablesDeclaration.setVariable and removeVariable (with the helpers they call) are evaluated on their syntax trees over a model block whose item list keeps literal names as written - escaped (wid\\th), upper case (HEIGHT), plain - next to comments: after every call, under any spelling of the name, the item list and the name map list exactly the same variables once each with the same values; an update replaces the one item of the name in place, a removal deletes it and returns the old text')
+    chk.assume("R10.g: helper.normalize is modelled as 'remove a backslash before a non-hex character, then lower-case'; the production parse of the variable name as an identifier test")
     import re as _re
 
     from sa.absint import Evaluator, Raised, Record
